@@ -136,8 +136,16 @@ partial def entLays (t : Tape) : List Spec.Entry → List Spec.EntLay × Tape
     ((pre, ln, sep, lv, pt, termOf tm) :: rest, t)
 end
 
+/-- one character per choice, or `[<decimal>]` for a choice of any size (general gaps) -/
+partial def parseTape : List Char → Tape
+  | [] => []
+  | '[' :: rest =>
+    let ds := rest.takeWhile (· != ']')
+    ((String.ofList ds).toNat?.getD 0) :: parseTape ((rest.dropWhile (· != ']')).drop 1)
+  | c :: rest => tapeVal c :: parseTape rest
+
 def layoutOfTape (tape : String) (d : Spec.Doc) : Spec.Layout :=
-  let t : Tape := tape.toList.map tapeVal
+  let t : Tape := parseTape tape.toList
   let (ls, t) := entLays t d
   { entries := ls, post := (pop t).1 }
 
